@@ -86,6 +86,27 @@ def mutated_names(body) -> set:
                 out.add(n.func.value.id)
             elif isinstance(n, (ast.Subscript, ast.Attribute)) and isinstance(n.ctx, (ast.Store, ast.Del)) and isinstance(n.value, ast.Name):
                 out.add(n.value.id)
+    # an element handed out by iteration / subscription is part of the container: changing it changes the container
+    changed = True
+    while changed:
+        changed = False
+        for st in body:
+            for n in ast.walk(st):
+                src_names, tgt = [], None
+                if isinstance(n, (ast.For, ast.comprehension)):
+                    tgt, it = n.target, n.iter
+                    base = it.func.value if isinstance(it, ast.Call) and isinstance(it.func, ast.Attribute) and it.func.attr in ('items', 'values') else it
+                    if isinstance(base, ast.Name):
+                        src_names = [base.id]
+                elif isinstance(n, ast.Assign) and isinstance(n.value, ast.Subscript) and isinstance(n.value.value, ast.Name) and len(n.targets) == 1:
+                    tgt, src_names = n.targets[0], [n.value.value.id]
+                if tgt is None or not src_names:
+                    continue
+                if any(isinstance(x, ast.Name) and x.id in out for x in ast.walk(tgt)):
+                    for s_ in src_names:
+                        if s_ not in out:
+                            out.add(s_)
+                            changed = True
     return out
 
 
@@ -296,6 +317,10 @@ def _decide(node):
         return None if v is None else (not v)
     if isinstance(node, ast.Constant):
         return bool(node.value)
+    if isinstance(node, (ast.List, ast.Tuple, ast.Set)) and not any(isinstance(e, ast.Starred) for e in node.elts):
+        return bool(node.elts)          # a display is true exactly when it has elements
+    if isinstance(node, ast.Dict) and all(k is not None for k in node.keys):
+        return bool(node.keys)
     if isinstance(node, ast.Compare) and len(node.ops) == 1:
         l, r, op = node.left, node.comparators[0], node.ops[0]
         if isinstance(l, ast.Constant) and isinstance(r, ast.Constant):
